@@ -26,7 +26,7 @@ EXPLANATION = ('FRAME rounding classes and minimum length in frames_from_times; 
 TRUSTED = ['int() is floor for non-negative operands', 'numpy semantics']
 NOT_DECIDED = ['exact frame sets for off-grid times', 'mutual inverse as a whole']
 ASSUMPTIONS = []
-FLOORS = {'FRAME': 12, 'ALLOC': 2, 'SKIP': 3, 'WINDOW': 2, 'VELO': 1, 'DEC': 10}
+FLOORS = {'FRAME': 14, 'ALLOC': 2, 'SKIP': 3, 'WINDOW': 2, 'VELO': 1, 'DEC': 10}
 
 
 def E(t):
@@ -132,6 +132,8 @@ FRAME_SCENARIOS = [
     (('1/2', '1/2', 8, 0), (4, 5)),
     (('1/32', 1, 8, 0), (0, 8)),
     ((2, '129/32', 16, '1/4'), (32, 65)),
+    (('1/2', '1/2', 8, '1/4'), (4, 5)),         # "at least one frame" also when an occupancy is asked for (a zero-length note on a frame boundary)
+    (('1/2', '17/32', 8, '1/2'), (4, 5)),
 ]
 
 
